@@ -1,6 +1,7 @@
 //! Correspondence runner: answers JSON-line requests with the real typeshare code, in-process.
 //! One request per input line, one JSON answer per output line. Every request runs inside
 //! `catch_unwind`; a panic is reported as `{"panic": "<file>:<line>"}`.
+mod ast;
 #[allow(dead_code)]
 mod serde_case;
 
@@ -591,6 +592,9 @@ fn handle(req: &Value) -> Value {
         "parse" => op_parse(req),
         "generate" => op_generate(req),
         "format_type" => op_format_type(req),
+        "ast" => ast::op_ast(req),
+        "ast_mutate" => ast::op_ast_mutate(req),
+        "ast_items" => ast::op_ast_items(req),
         _ => json!({"bad-request": "op"}),
     }
 }
